@@ -174,6 +174,12 @@ class Lib:
     def sym(self, name):
         return getattr(self._dll, name)
 
+    def manual(self, name, restype, argtypes):
+        """bind an exported function that no header declares"""
+        fn = getattr(self._dll, name)
+        fn.restype, fn.argtypes = restype, argtypes
+        return fn
+
     def data(self, name, ctype):
         return ctype.in_dll(self._dll, name)
 
